@@ -465,6 +465,69 @@ LOCKED_CMDS = [b'NOOP', b'CHECK', b'STATUS INBOX (MESSAGES UIDNEXT)',
                b'LOGOUT']
 
 
+async def case_oversize(spec: dict[str, Any], ctx: Ctx) -> None:
+    """A deployment with a small APPENDLIMIT (``max_append_len``): a message
+    over the limit, spelled as a non-synchronising literal - whose octets
+    are on the wire whether the server wants them or not - followed by more
+    commands in the same segment.  The APPEND may be refused; each command
+    line gets exactly one tagged reply, and the refused literal's content is
+    data, not commands."""
+    rng = random.Random(spec['seed'])
+    limit = spec['limit']
+    env = await make_env('dict', {'testuser': 'testpass'},
+                         max_append_len=limit)
+    try:
+        conn = await open_conn(env, 'selected', 1)
+        if conn is None:
+            ctx.report('setup-failed', 'cannot reach state selected')
+            return
+        over = spec['over']
+        lines = [b'x1 CLOSE', b'x2 CREATE Planted', b'x3 DELETE INBOX',
+                 b'', b'x4 LOGOUT', b'Subject: s', b'x5 NOOP']
+        rng.shuffle(lines)
+        body = b'\r\n'.join(lines) + b'\r\n'
+        n = limit + over
+        body = (body * (n // len(body) + 1))[:n] if n > 0 else b''
+        plus = b'+'
+        seg = b'a1 APPEND INBOX ' + rng.choice([b'', b'(\\Seen) ']) + \
+            b'{%d%s}\r\n' % (n, plus) + body
+        if spec.get('multi'):
+            seg += b' {5+}\r\nabcde'
+        seg += b'\r\na2 NOOP\r\na3 FETCH 1 (UID)\r\n'
+        start = len(conn.responses)
+        conn.feed(seg)
+        ctx.count('oversize_appends')
+        await conn.loop.quiescent()     # type: ignore[attr-defined]
+        new = conn.responses[start:]
+        tags = [r.tag for r in new if r.kind == 'tagged']
+        what = 'max_append_len=%d, APPEND {%d+} and two more commands in ' \
+            'one segment' % (limit, n)
+        extra = [t for t in tags if t not in (b'a1', b'a2', b'a3')]
+        stray = [r.raw[:60] for r in new
+                 if r.kind == 'untagged' and r.cond == b'BAD']
+        if extra:
+            ctx.report('literal-content-executed-as-commands',
+                       '%s: tagged replies for %r, which were never sent as '
+                       'commands' % (what, extra[:4]))
+        elif stray:
+            ctx.report('refused-literal-not-fully-consumed',
+                       '%s: %r' % (what, stray[:2]))
+        elif tags != [b'a1', b'a2', b'a3'] and not conn.dead:
+            ctx.report('command-unanswered',
+                       '%s: tagged replies %r' % (what, tags))
+        elif tags == [b'a1', b'a2', b'a3']:
+            last = [r for r in new if r.kind == 'tagged'][-1]
+            if last.cond != b'OK':
+                ctx.report('refused-command-changed-state',
+                           '%s: FETCH afterwards answered %r %r' % (
+                               what, last.cond, (last.text or b'')[:60]))
+        ctx.counters['lines'] = ctx.counters.get('lines', 0) + 3
+        if not ctx.violations:
+            await canary(ctx, env)
+    finally:
+        env.cleanup()
+
+
 async def case_locked(spec: dict[str, Any], ctx: Ctx) -> None:
     """maildir: another process holds one of the store's lock files for
     longer than the server is willing to wait.  Every command must still be
@@ -674,6 +737,11 @@ class C06(Check):
                                'n': nn, 't': (k + seed) % len(gen.PUMP_TAILS),
                                'backend': 'maildir' if k % 4 == 0 else 'dict',
                                'seed': seed}
+        for i in range(40 if tier == 'quick' else 400):
+            yield {'kind': 'oversize', 'seed': seed * 1_000_003 + i,
+                   'limit': [64, 200, 1000, 5000, 10000][i % 5],
+                   'over': [1, 0, 37, 3000, -1, 20000][i % 6],
+                   'multi': i % 7 == 3}
         for i in range(60 if tier == 'quick' else 600):
             yield {'kind': 'locked', 'seed': seed * 1_000_003 + i,
                    'backend': 'maildir' if i % 2 else 'maildir-fs',
@@ -726,6 +794,7 @@ class C06(Check):
         fn = {'lines': case_lines, 'message': case_message,
               'sieve': case_sieve, 'cross': case_cross,
               'pump': case_pump, 'locked': case_locked,
+              'oversize': case_oversize,
               'script-lines': script_lines,
               'script-message': script_message}[
                   spec.get('kind') or 'script-' + spec['script']]
